@@ -318,19 +318,20 @@ def consumeFormatOptions (p : Pos) (cs : List Ch) : Token × Move :=
 
 /-! ### consume_number -/
 
+/-- the optional exponent part: `e`, an optional sign, decimal digits -/
+def numberExponent (bytes : Nat) (cs : List Ch) : Nat :=
+  if peekIs cs cp_e then
+    let cs1 := cs.drop 1
+    if peekIs cs1 cpPlus || peekIs cs1 cpMinus then bytes + 2 + countWhile isDecimalDigit (cs1.drop 1)
+    else bytes + 1 + countWhile isDecimalDigit cs1
+  else bytes
+
 /-- returns the number of bytes of the number token -/
 def numberBytes (cs : List Ch) : Nat :=
   let leadingZero := peekIs cs cp0
   -- first char is an ASCII digit
   let n0 := if peekSat cs isAsciiDigit then 1 + countWhile isDecimalDigit (cs.drop 1) else 0
   let cs1 := cs.drop n0
-  let exponent := fun (bytes : Nat) (cs : List Ch) =>
-    if peekIs cs cp_e then
-      let cs := cs.drop 1
-      let bytes := bytes + 1
-      let (bytes, cs) := if peekIs cs cpPlus || peekIs cs cpMinus then (bytes + 1, cs.drop 1) else (bytes, cs)
-      bytes + countWhile isDecimalDigit cs
-    else bytes
   if peekIs cs1 cp_b && leadingZero && n0 == 1 then
     n0 + 1 + countWhile isBinaryDigit (cs1.drop 1)
   else if peekIs cs1 cp_o && leadingZero && n0 == 1 then
@@ -347,9 +348,9 @@ def numberBytes (cs : List Ch) : Nat :=
       else false
     if continueFraction then
       let k := countWhile isDecimalDigit cs2
-      exponent (n0 + 1 + k) (cs2.drop k)
+      numberExponent (n0 + 1 + k) (cs2.drop k)
     else n0
-  else exponent n0 cs1
+  else numberExponent n0 cs1
 
 /-! ### identifiers, keywords, symbols -/
 
